@@ -35,7 +35,7 @@ static _Atomic uint64_t serial_ctr;
 static int late_joiners;
 
 static vp_counter_t *c_validated, *c_revalidate_fail, *c_retired, *c_reclaimed, *c_scans_kept, *c_rounds, *c_maxgarbage,
-    *c_records, *c_bounded_checks;
+    *c_records, *c_bounded_checks, *c_self_protect;
 
 #ifndef VP_ASAN
 // shuffled arena so that sorted/binary-searched addresses come in arbitrary order
@@ -160,8 +160,31 @@ static void writer(ds_worker_t* w) {
   for (i = 0; i < quota; ++i) {
     const int s = (int)(vp_rand(&w->rng) % (unsigned)nslots);
     hnode_t* n = node_new();
+    // one time in four the retiring thread itself still holds a validated hazard pointer to the node it unlinks and retires
+    // (its own scan runs inside the retirement): its own protection counts like anybody else's
+    hnode_t* mine = NULL;
+    if ((vp_rand(&w->rng) & 3) == 0) {
+      mine = atomic_load(&slots[s]);
+      if (mine) {
+        hazard_pointer_using(r, &mine->hazard, (size_t)(K - 1));
+        if (atomic_load(&slots[s]) != mine) {
+          hazard_pointer_done_using(r, (size_t)(K - 1));
+          mine = NULL;
+        } else {
+          atomic_fetch_add(&mine->protect, 1);
+          vp_add(c_self_protect, 1);
+        }
+      }
+    }
     hnode_t* old = atomic_exchange(&slots[s], n);
     if (old) retire(w, r, old);
+    if (mine) {
+      if (atomic_load(&mine->canary) != ALIVE)
+        vp_violation("C14", "hazard:protected-node-reclaimed", "round %d: writer %d still holds a validated hazard pointer to node #%llu, which was reclaimed (retired by thread %d)",
+                     cur_round, w->id, (unsigned long long)mine->serial, atomic_load(&mine->retired_by) - 1);
+      atomic_fetch_sub(&mine->protect, 1);
+      hazard_pointer_done_using(r, (size_t)(K - 1));
+    }
     if (!tight && (vp_rand(&w->rng) & 7) == 0) ds_tiny_delay(&w->rng, 200);
   }
 }
@@ -191,6 +214,7 @@ void ds_sub_hazard(void) {
   c_maxgarbage = vp_counter("hp_max_retired_per_record");
   c_records = vp_counter("hp_records_registered");
   c_bounded_checks = vp_counter("hp_bounded_garbage_checks");
+  c_self_protect = vp_counter("hp_retired_while_protected_by_the_retiring_thread");
 #ifndef VP_ASAN
   pthread_spin_init(&arena_lock, 0);
   arena_n = 4096;
